@@ -3,7 +3,12 @@
 
      Haplotag  W    the abstract input (see Haplotag.tla), built by the harness:
                     the observed alleles are those the harness put into the reads
-               out  projection of the written BAM: [rest, hp, ps, pc] per record
+               out  projection of the written BAM: [rest, hp, ps, pc, aux] per record
+                    (rest: identity of the fixed columns and of the values of the
+                    tags other than HP/PS/PC; aux: identity of the ORDERED list of
+                    the auxiliary fields other than HP/PS/PC WITH their value types
+                    A/i/f/Z/H/B+element type, as SAM text shows them; W.aln[i].aux
+                    is the same projection of input alignment i)
                exc  "" or the exception type the command ended with
                swap <<>> or <<sample, chrom, ps>>: this run repeats the previous run
                     of the same trace with the two haplotypes of that phase set
@@ -20,6 +25,12 @@ Check(e, c, ok) == IF ok THEN TRUE ELSE Fail(e, c)
 
 None == [has |-> FALSE]
 
+(* "identical except for the HP, PS and PC tags": the other auxiliary fields of a written
+   alignment are those of the input alignment it stems from - same order, same value
+   types (a character field stays a character field, a hex string a hex string, an array
+   keeps its element type), same values *)
+OtherTags(W, i, o) == o.aux = W.aln[i].aux
+
 JudgeRun(e) ==
     LET W == e.W
         out == e.out
@@ -32,6 +43,7 @@ JudgeRun(e) ==
         /\ Check(e, "TagShape", \A n \in DOMAIN out : TagShape(out[n]))
         \* the per-alignment clauses need the correspondence between written and input alignments
         /\ ExactlyOnce(W, out) =>
+            /\ Check(e, "OtherTags", \A n \in DOMAIN out : OtherTags(W, I(n), out[n]))
             /\ Check(e, "Decision", \A n \in DOMAIN out : Decision(W, I(n), out[n]))
             /\ Check(e, "UntaggedWhen", \A n \in DOMAIN out : UntaggedWhen(W, I(n), out[n]))
             /\ Check(e, "IneligibleUntagged", \A n \in DOMAIN out : IneligibleUntagged(W, I(n), out[n]))
